@@ -83,7 +83,10 @@ class MieLens(ScatteringTheory):
         illum_polarization : 2-element tuple
             The (x, y) field polarizations.
         """
-        index_ratio = scatterer.n / medium_index
+        # mielensfunctions uses the van de Hulst (exp(+i w t)) convention, in
+        # which an absorbing index has a negative imaginary part; HoloPy
+        # scatterers use n + i k for absorption.
+        index_ratio = np.conj(scatterer.n / medium_index)
         size_parameter = medium_wavevec * scatterer.r
 
         rho, phi, z = positions
